@@ -8,7 +8,9 @@ from props import align_common
 
 
 def run(ctx: Ctx):
-    ctx.rule = ("rows built by the real Aligner.align (factory wiring) from lattice inputs printed by TLC and from "
+    ctx.rule = ("[end of pipeline] the rows Program.run() returns in modes best / joined / separate on generated CMAP sets "
+                "with 8 parameter vectors (one-decimal coordinates): TLC recomputes offsets, scores and the sum from the "
+                "raw coordinates and compares with the Confidence column. [candidate level] rows built by the real Aligner.align (factory wiring) from lattice inputs printed by TLC and from "
                 "realistic ladders with parameter vectors drawn from sp{600,1000} dp{0.5,1,2} su{-100,-250,-500} "
                 "d{500,1500,3000} ms{600,1000,2000} bs{600,1200,2500}; TLC (Trace_AlignCore) recomputes every pair's "
                 "offset from the raw maps and the segment's peak, every position score from the parameters the "
@@ -31,6 +33,27 @@ def run(ctx: Ctx):
                                                f"conf={rec['obs']['conf']} par={rec['in']['par']}")
         elif drift and not allf:
             ctx.add_drift(1, {"in": rec["in"], "conf": rec["obs"]["conf"]})
+    # ---- end of the pipeline: rows returned by Program.run() vs raw CMAP coordinates, passed parameters and the
+    #      Confidence column of the file (Trace_RowScore)
+    from lib import batch
+    from props import pipe_common
+    quick = ctx.tier == "quick"
+    res = pipe_common.explore(ctx, 16 if quick else 300, n_qry=12, salt=4, keep_rows=True, modes=["best", "joined", "separate"],
+                              kinds=["split", "indel", "dropped", "stretched", "noisy", "partial", "mirror", "chimeric",
+                                     "swapped", "exact", "dup", "split"])
+    slines = [ln for r in res for ln in r["summary"].get("score_lines", [])]
+    if slines:
+        v2, r2 = batch.validate("Trace_RowScore", "Trace_RowScore.cfg", ctx.workdir,
+                                [{k: v for k, v in ln.items() if k != "tag"} for ln in slines], name="rowscore.ndjson")
+        ctx.add_traces(len(slines))
+        ctx.notes["pipeline_rows"] = {"rows": len(slines), "second_pass_or_joined": sum(1 for ln in slines if ln["tag"]["mode"] == "joined" or ln["tag"]["rest"] == "True"),
+                                      "multi_segment": sum(1 for ln in slines if ln["tag"]["segments"] >= 2)}
+        for ln in slines:
+            if ln["tag"]["segments"] >= 2:
+                ctx.nontrivial(("row", ln["tag"]["input"], ln["tag"]["mode"], ln["tag"]["query"]))
+        for tid, (failed, drift) in sorted(v2.items()):
+            if failed:
+                ctx.violation(slines[tid], ["C04:" + c for c in failed], "", what=f"{slines[tid]['tag']} conf={slines[tid]['conf']} written={slines[tid]['written']}")
     multi = [x for x in records if alignlib.multi_segment(x)]
     for s in multi[:2] + records[:1]:
         ctx.sample({"in": s["in"], "conf": s["obs"]["conf"],
